@@ -320,7 +320,8 @@ def gen_session(rng, closed_only=False, gap_safe=False):
     if uhf_session:
         pool = OPEN + CLOSED_NEUTRAL[:5] + ["oh-", "nh4+"]
     elif closed_only:
-        pool = CLOSED_NEUTRAL
+        # closed-shell ions (incl. full-shell atoms) are valid batch mates and have a single stable closed-shell solution too
+        pool = CLOSED_NEUTRAL * 3 + CLOSED_IONS
     else:
         pool = CLOSED_NEUTRAL + CLOSED_IONS + CLOSED_IONS
     n = rng.choice([1, 1, 2, 2, 3])
